@@ -61,3 +61,10 @@ impl Synchronize {
         self.happens_before.join(&threads.active().causality);
     }
 }
+
+#[cfg(feature = "verif-hooks")]
+impl Synchronize {
+    pub(crate) fn verif_dump(&self) -> String {
+        self.happens_before.verif_dump()
+    }
+}
